@@ -67,6 +67,48 @@ def mixSnap [Add K] [Sub K] [Mul K] [OfNat K 0] [OfNat K 1] (near0 near1 : K →
 def blochSum [Add K] [Mul K] [OfNat K 0] (χ : Vec3 → K) (Rs : List Vec3) (X : Nat → Nat → K) (c : Nat) : K :=
   ((List.range Rs.length).map (fun ir => χ (Rs.getD ir (0, 0, 0)) * X ir c)).sum
 
+/-! ### one interpolator object used repeatedly
+
+  `interpolate alpha` hands a system object to the caller, who may then edit that object in place (`mutate i f`:
+  the i-th object handed out so far is changed by `f`).  `S` is the type of a system, `F s0 s1 alpha` the
+  interpolation formula.  In the code every call builds a fresh object (`copy.deepcopy` + new arrays);
+  `runMemo` is NOT the code: the seeded rule that keeps the objects in a cache keyed by alpha and hands the stored
+  object out again.
+-/
+
+structure IState (K S : Type) where
+  s0 : S
+  s1 : S
+  heap : List S                 -- the objects handed out so far, with their CURRENT contents
+  cache : List (K × Nat)        -- memo variant only: alpha ↦ index of the stored object
+
+inductive IOp (K S : Type) where
+  | interp (α : K)
+  | mutate (i : Nat) (f : S → S)
+
+/-- the code: a fresh object per call; returns the list of (alpha, value returned) and the final state -/
+def runFresh {S : Type} (F : S → S → K → S) : List (IOp K S) → IState K S → List (K × S) × IState K S
+  | [], st => ([], st)
+  | .interp α :: t, st =>
+    let v := F st.s0 st.s1 α
+    let r := runFresh F t { st with heap := st.heap ++ [v] }
+    ((α, v) :: r.1, r.2)
+  | .mutate i f :: t, st => runFresh F t { st with heap := st.heap.modify i f }
+
+/-- the seeded rule: `if alpha in cache: return cache[alpha]` (the stored object, with whatever the caller did to it) -/
+def runMemo {S : Type} [DecidableEq K] (F : S → S → K → S) : List (IOp K S) → IState K S → List (K × S) × IState K S
+  | [], st => ([], st)
+  | .interp α :: t, st =>
+    match (st.cache.find? (fun c => c.1 = α)).bind (fun c => st.heap[c.2]?) with
+    | some v =>
+      let r := runMemo F t st
+      ((α, v) :: r.1, r.2)
+    | none =>
+      let v := F st.s0 st.s1 α
+      let r := runMemo F t { st with heap := st.heap ++ [v], cache := (α, st.heap.length) :: st.cache }
+      ((α, v) :: r.1, r.2)
+  | .mutate i f :: t, st => runMemo F t { st with heap := st.heap.modify i f }
+
 /-! ### driver -/
 open WB.IO
 
